@@ -728,6 +728,8 @@ def oracle_client(lay: Layout, c: dict, info) -> tuple | None:
     if got != expected:
         if any(e[0] == c["self"] for e in got):
             return ("client:reported-the-asking-context", f"{got}", 0)
+        if [e[0] for e in got] == [e[0] for e in expected]:
+            return ("client:address-or-port-differs", f"got {got}, expected {expected}", 0)
         extra = [e for e in got if e not in expected]
         if extra:
             return ("client:reported-answer-not-to-own-request", f"{extra} (expected {expected})", 0)
